@@ -1,4 +1,5 @@
 import MpgsModel.Lemmas.C12Step
+import MpgsModel.Lemmas.C12Typed
 import MpgsModel.Props.C09
 /-!
 # C12 — keep-alives and time-outs: idle links stay up, dead peers are detected, settings take effect
@@ -129,6 +130,42 @@ theorem C12_keepalive_cadence_max (E : Env) (hR : E.R.KeepsClock) (τ : Int) (op
     GapLe (max c.keepAlive c.sendInterval + τ) (c.lastSend :: xemitTimes E c ops) :=
   (C12_keepalive_cadence E hR τ _ ops c p (Int.le_max_left _ _) (Int.le_max_right _ _) h0 hka hp hpaced).1
 
+/-- the typing side condition is an invariant (`Typed`: every message held for sending carries a
+real packet type; true of a fresh connection, kept by every operation): with it, a due keep-alive
+is emitted without further assumptions about the queue -/
+theorem C12_keepalive_emits_typed (sz : Sizes) (c : Conn) (t : Int) (hty : Typed c) (hs : c.status = .connected)
+    (h1 : t - c.lastSend ≥ c.sendInterval) (h2 : t - c.lastKeepAlive > c.keepAlive) :
+    (buildPacket sz c t).2 ≠ .ok none :=
+  (C12_keepalive_emits sz c t hs h1 h2 (packAll_typed sz c t c.keepAlive hty).1).1
+
+/-- `Paced` without the typing side condition: build calls at most `τ` apart, CONNECTED, packing does not raise -/
+def PacedT (E : Env) (τ : Int) : Conn → Int → List XOp → Prop
+  | _, _, [] => True
+  | c, p, op :: ops =>
+    (∀ t, buildTime op = some t → p ≤ t ∧ t ≤ p + τ ∧ c.status = .connected ∧ ∀ e, (buildPacket E.sz c t).2 ≠ .error e) ∧
+    PacedT E τ (xstep E c op).1 ((buildTime op).getD p) ops
+
+theorem paced_of_typed (E : Env) (hT : E.R.KeepsTyped) (τ : Int) (ops : List XOp) (c : Conn) (p : Int)
+    (hty : Typed c) (h : PacedT E τ c p ops) : Paced E τ c p ops := by
+  induction ops generalizing c p with
+  | nil => trivial
+  | cons op ops ih =>
+    obtain ⟨hop, hrest⟩ := h
+    refine ⟨?_, ih _ _ (xstep_typed E hT c op hty) hrest⟩
+    intro t hbt
+    obtain ⟨a, b, hs, hne⟩ := hop t hbt
+    exact ⟨a, b, hs, (packAll_typed E.sz c t c.keepAlive hty).1, hne⟩
+
+/-- **Keep-alive cadence from a typed state** (e.g. a fresh connection): the same bound, the only
+conditions on the history being that the build calls come at most `τ` apart while CONNECTED and that
+packing does not raise. -/
+theorem C12_keepalive_cadence_typed (E : Env) (hR : E.R.KeepsClock) (hT : E.R.KeepsTyped) (τ g : Int) (ops : List XOp)
+    (c : Conn) (p : Int) (hty : Typed c) (hg1 : c.keepAlive ≤ g) (hg2 : c.sendInterval ≤ g) (hg0 : 0 ≤ g)
+    (hka : c.lastKeepAlive = c.lastSend) (hp : p - c.lastSend ≤ g) (hpaced : PacedT E τ c p ops) :
+    GapLe (g + τ) (c.lastSend :: xemitTimes E c ops) ∧
+    lastBuild p ops - (xrun E c ops).1.lastSend ≤ g :=
+  C12_keepalive_cadence E hR τ g ops c p hg1 hg2 hg0 hka hp (paced_of_typed E hT τ ops c p hty hpaced)
+
 /-! ## 2. no false time-out -/
 
 /-- **No time-out while the peer is heard.** -/
@@ -231,6 +268,93 @@ theorem C12_never_dropped (E : Env) (hR : E.R.KeepsLr) (hN : E.R.NoDrop) (ops : 
     | base o => exact xstep_nd E hN c _ (by intro t h; cases h) hnd
     | supd t => exact xstep_nd E hN c _ (by intro t h; cases h) hnd
     | csend t => exact xstep_nd E hN c _ (by intro t h; cases h) hnd
+
+/-! ### composed over a link: an idle pair stays up -/
+
+/-- the clock values of the accepted receptions of a history -/
+def acceptTimes (E : Env) (c : Conn) : List XOp → List Int
+  | [] => []
+  | op :: ops =>
+    (if accepts E c op then (xtime op).toList else []) ++ acceptTimes E (xstep E c op).1 ops
+
+/-- the clock of a history never runs backwards and the observation ends at `te` -/
+def MonoUpTo (te : Int) : Int → List XOp → Prop
+  | now, [] => now ≤ te
+  | now, op :: ops => (∀ t, xtime op = some t → now ≤ t) ∧ MonoUpTo te ((xtime op).getD now) ops
+
+/-- a receiver whose acceptance times are at most `T - 1` apart (starting from its last
+acceptance before the history) is `FedWithin T` -/
+theorem fed_of_gaps (E : Env) (hR : E.R.KeepsLr) (T : Int) (ops : List XOp) (c : Conn) (now te : Int)
+    (hg : GapLe (T - 1) (c.lastRecv :: acceptTimes E c ops)) (hm : MonoUpTo te now ops)
+    (hend : te - (xrun E c ops).1.lastRecv < T) : FedWithin E T c now ops te := by
+  induction ops generalizing c now with
+  | nil => exact ⟨hm, hend⟩
+  | cons op ops ih =>
+    obtain ⟨hm1, hm2⟩ := hm
+    simp only [acceptTimes] at hg
+    simp only [xrun] at hend
+    rcases xstep_lr E hR c op with ⟨hna, e⟩ | ⟨ha, t, ht, e⟩
+    · simp only [hna, if_false, List.nil_append] at hg
+      refine ⟨fun t ht => ⟨hm1 t ht, fun h => absurd h hna⟩, ih _ _ (by rw [e]; exact hg) hm2 hend⟩
+    · simp only [ha, if_true, ht, Option.toList, List.singleton_append] at hg
+      obtain ⟨hg1, hg2⟩ := hg
+      refine ⟨fun t' ht' => ⟨hm1 t' ht', fun _ => ?_⟩, ih _ _ (by rw [e]; exact hg2) hm2 hend⟩
+      rw [ht] at ht'; injection ht' with ht'; omega
+
+/-- the link: emission times at most `g` apart, each delivered (in order) after a delay between 0 and
+`δ` (transit plus the wait for the receiver's next tick), arrive at most `g + δ` apart -/
+theorem gaps_delay (g δ : Int) (es ds : List Int) (a da : Int) (hg : GapLe g (a :: es))
+    (hd : ∀ d ∈ da :: ds, 0 ≤ d ∧ d ≤ δ) (hlen : ds.length = es.length) :
+    GapLe (g + δ) ((a + da) :: List.zipWith (· + ·) es ds) := by
+  induction es generalizing a da ds with
+  | nil => simp [GapLe]
+  | cons e es ih =>
+    cases ds with
+    | nil => simp at hlen
+    | cons d ds =>
+      obtain ⟨hg1, hg2⟩ := hg
+      simp only [List.zipWith]
+      have h1 := hd da (List.mem_cons_self ..)
+      have h2 := hd d (List.mem_cons_of_mem _ (List.mem_cons_self ..))
+      refine ⟨by omega, ih ds e d hg2 (fun x hx => hd x (List.mem_cons_of_mem _ hx)) (by simpa using hlen)⟩
+
+/-- **An idle pair stays up.**  Endpoint `a` is driven as in `C12_keepalive_cadence_typed` (build
+calls at most `τ` apart while CONNECTED), so its emissions are at most `g + τ` apart for
+`g ≥ max(keepAlive, sendInterval, 0)`; the link delivers every emission, in order, after a delay of
+at most `δ` (transit plus the wait for the receiver's next tick) and the receiver `b` accepts exactly
+these datagrams (`hlink`; that a genuine, fresh, correctly sealed datagram is accepted is C01/C04's
+subject).  If `g + τ + δ < T` then `b.timedout(T)` is false at every instant of every such history,
+however long — and with `T = 5 s + 1 tick` a client `b` never becomes DROPPED. -/
+theorem C12_idle_pair_stays_up (EA EB : Env) (hRA : EA.R.KeepsClock) (hTA : EA.R.KeepsTyped) (hRB : EB.R.KeepsLr)
+    (τ g δ T : Int) (opsA : List XOp) (a : Conn) (p : Int) (hty : Typed a)
+    (hg1 : a.keepAlive ≤ g) (hg2 : a.sendInterval ≤ g) (hg0 : 0 ≤ g) (hka : a.lastKeepAlive = a.lastSend)
+    (hp : p - a.lastSend ≤ g) (hpaced : PacedT EA τ a p opsA)
+    (opsB : List XOp) (b : Conn) (now te d0 : Int) (ds : List Int)
+    (hb0 : b.lastRecv = a.lastSend + d0)
+    (hlink : acceptTimes EB b opsB = List.zipWith (· + ·) (xemitTimes EA a opsA) ds)
+    (hlen : ds.length = (xemitTimes EA a opsA).length) (hd : ∀ d ∈ d0 :: ds, 0 ≤ d ∧ d ≤ δ)
+    (hm : MonoUpTo te now opsB) (hend : te - (xrun EB b opsB).1.lastRecv < T) (hT : g + τ + δ < T) :
+    AtEveryInstant EB (fun c s => timedOut c s T = false) b opsB ∧
+    (∀ s, s ≤ te → timedOut (xrun EB b opsB).1 s T = false) ∧
+    (T = 5121 → EB.R.NoDrop → b.status ≠ .dropped → Always EB (fun c => c.status ≠ .dropped) b opsB) := by
+  have hcad := (C12_keepalive_cadence_typed EA hRA hTA τ g opsA a p hty hg1 hg2 hg0 hka hp hpaced).1
+  have harr := gaps_delay (g + τ) δ _ ds a.lastSend d0 hcad hd hlen
+  rw [← hlink, ← hb0] at harr
+  have hmono : ∀ (l : List Int) (g1 g2 : Int), g1 ≤ g2 → GapLe g1 l → GapLe g2 l := by
+    intro l
+    induction l with
+    | nil => intro _ _ _ _; trivial
+    | cons x l ih =>
+      intro g1 g2 h12 h
+      cases l with
+      | nil => trivial
+      | cons y l => exact ⟨by have := h.1; omega, ih g1 g2 h12 h.2⟩
+  have hfed := fed_of_gaps EB hRB T opsB b now te (hmono _ _ _ (by omega) harr) hm hend
+  have h1 := C12_never_timed_out EB hRB T opsB b now te hfed
+  refine ⟨h1.1, h1.2, ?_⟩
+  intro hT5 hN hnd
+  subst hT5
+  exact C12_never_dropped EB hRB hN opsB b now te hfed hnd
 
 /-! ## 3. a dead peer is detected -/
 
@@ -673,6 +797,80 @@ theorem C12_server_last_value (x : ServerCtx) (v : Int) :
     (∃ x', x.apply (.setInterval v) = .ok x' ∧ x'.interval = v) :=
   ⟨⟨_, rfl, rfl⟩, ⟨_, rfl, rfl⟩, ⟨_, rfl, rfl⟩, ⟨_, rfl, rfl⟩, ⟨_, rfl, rfl⟩⟩
 
+/-! ## 6. `UdpClient.update()` reads everything that has arrived -/
+
+/-- the reception operations `update()` performs for the datagrams waiting on the socket, all at
+its own clock value `t`; `none` if some header does not decode -/
+def recvOps (t : Int) : List Bytes → Option (List XOp)
+  | [] => some []
+  | d :: rest =>
+    match decodeHdr false d, recvOps t rest with
+    | .ok h, some l => some (.base (.recv t h d) :: l)
+    | _, _ => none
+
+theorem xrun_append (E : Env) (c : Conn) (a b : List XOp) :
+    xrun E c (a ++ b) = ((xrun E (xrun E c a).1 b).1, (xrun E c a).2 ++ (xrun E (xrun E c a).1 b).2) := by
+  induction a generalizing c with
+  | nil => simp [xrun]
+  | cons op a ih => simp only [List.cons_append, xrun, ih, List.append_assoc]
+
+/-- **The socket is drained.**  Unless an exception escapes, the receive half of `update()` (as
+repaired) leaves no datagram unread, however many were waiting, and is exactly the history of
+their receptions at this call's clock value — so the liveness clock always reflects the newest
+datagram that has arrived (before the repair only the first waiting datagram was read per call and
+a backlog could keep a dead peer "alive"). -/
+theorem C12_update_drains (E : Env) (t : Int) (inbox : List Bytes) (c : Conn) (ops : List XOp)
+    (hops : recvOps t inbox = some ops) (hne : (clientDrain E c t inbox).2.2.2 = none) :
+    (clientDrain E c t inbox).2.2.1 = [] ∧ (clientDrain E c t inbox).1 = (xrun E c ops).1 ∧
+    (clientDrain E c t inbox).2.1 = (xrun E c ops).2 := by
+  induction inbox generalizing c ops with
+  | nil =>
+    simp only [recvOps, Option.some.injEq] at hops
+    subst hops
+    exact ⟨rfl, rfl, rfl⟩
+  | cons d rest ih =>
+    simp only [recvOps] at hops
+    cases hd : decodeHdr false d with
+    | error e => simp [hd] at hops
+    | ok h =>
+      cases hr : recvOps t rest with
+      | none => simp [hd, hr] at hops
+      | some l =>
+        simp only [hd, hr, Option.some.injEq] at hops
+        subst hops
+        simp only [clientDrain, hd] at hne ⊢
+        cases hret : (recvDatagram E.C E.R c t h d).2.2 with
+        | raised e => simp [hret] at hne
+        | accepted =>
+          simp only [hret] at hne ⊢
+          have := ih (recvDatagram E.C E.R c t h d).1 l hr hne
+          simp only [xrun, xstep, step, hret]
+          exact ⟨this.1, this.2.1, by rw [this.2.2]⟩
+        | rejected =>
+          simp only [hret] at hne ⊢
+          have := ih (recvDatagram E.C E.R c t h d).1 l hr hne
+          simp only [xrun, xstep, step, hret]
+          exact ⟨this.1, this.2.1, by rw [this.2.2]⟩
+
+/-- **`UdpClient.update()` is a history at one clock value**: `conn.update()`, then — unless the
+connection is DROPPED — the reception of every waiting datagram, then the send half.  All history
+theorems above therefore apply to a client driven by `update()` alone. -/
+theorem C12_update_is_history (E : Env) (t : Int) (inbox : List Bytes) (c : Conn) (ops : List XOp)
+    (hops : recvOps t inbox = some ops) (hne : (clientDrain E (clientUpdate c t).1 t inbox).2.2.2 = none) :
+    ((clientUpdate c t).1.status = .dropped →
+      clientUpdateFull E c t inbox = ((xrun E c [.cupd t]).1, (xrun E c [.cupd t]).2, inbox)) ∧
+    ((clientUpdate c t).1.status ≠ .dropped →
+      clientUpdateFull E c t inbox =
+        ((xrun E c (.cupd t :: ops ++ [.csend t])).1, (xrun E c (.cupd t :: ops ++ [.csend t])).2, [])) := by
+  constructor
+  · intro hd
+    simp [clientUpdateFull, hd, xrun, xstep]
+  · intro hd
+    have hdr := C12_update_drains E t inbox (clientUpdate c t).1 ops hops hne
+    simp only [clientUpdateFull, hd, if_false, hne]
+    simp only [xrun, xstep, xrun_append, List.append_nil]
+    rw [hdr.1, hdr.2.1, hdr.2.2]
+
 /-! ## non-vacuity -/
 
 def exEnv : Env := ⟨⟨1500⟩, ⟨fun _ _ _ p => p, fun _ _ _ c => some c⟩, baseRole⟩
@@ -691,13 +889,15 @@ example : Paced exEnv 40 exConn 1000 [.base (.build 1040), .csend 1080, .base (.
     (simp only [buildTime, Option.some.injEq] at h; subst h
      exact ⟨by decide, by decide, by decide, by decide, noErr_of_isOk _ (by decide)⟩)
 example : xemitTimes exEnv exConn [.base (.build 1040), .csend 1080, .base (.build 1120)] = [1120] := by decide
-example : baseRole.KeepsClock ∧ baseRole.KeepsLr ∧ baseRole.KeepsHc ∧ baseRole.NoDrop :=
-  ⟨baseRole_keepsClock, baseRole_keepsLr, baseRole_keepsHc, baseRole_noDrop⟩
-example (H : Hs) : (clientRole H).KeepsClock ∧ (clientRole H).KeepsLr ∧ (clientRole H).NoDrop :=
-  ⟨clientRole_keepsClock H, clientRole_keepsLr H, clientRole_noDrop H⟩
+example : baseRole.KeepsClock ∧ baseRole.KeepsLr ∧ baseRole.KeepsHc ∧ baseRole.NoDrop ∧ baseRole.KeepsTyped :=
+  ⟨baseRole_keepsClock, baseRole_keepsLr, baseRole_keepsHc, baseRole_noDrop, baseRole_keepsTyped⟩
+example (H : Hs) : (clientRole H).KeepsClock ∧ (clientRole H).KeepsLr ∧ (clientRole H).NoDrop ∧ (clientRole H).KeepsTyped :=
+  ⟨clientRole_keepsClock H, clientRole_keepsLr H, clientRole_noDrop H, clientRole_keepsTyped H⟩
 example (H : Hs) (a : Nat) (b : Option Nat) :
-    (serverRole H a b).KeepsClock ∧ (serverRole H a b).KeepsLr ∧ (serverRole H a b).NoDrop :=
-  ⟨serverRole_keepsClock H a b, serverRole_keepsLr H a b, serverRole_noDrop H a b⟩
+    (serverRole H a b).KeepsClock ∧ (serverRole H a b).KeepsLr ∧ (serverRole H a b).NoDrop ∧ (serverRole H a b).KeepsTyped :=
+  ⟨serverRole_keepsClock H a b, serverRole_keepsLr H a b, serverRole_noDrop H a b, serverRole_keepsTyped H a b⟩
+example : Typed exConn := typed_fresh _ rfl rfl rfl
+example (x : ServerCtx) : Typed x.newConn := typed_fresh _ rfl rfl rfl
 -- a silent history and the two detection instants
 example : Quiet exEnv exConn [.cupd 3000, .csend 3000, .cupd 6120] := by simp only [Quiet, accepts]; decide
 example : (clientUpdate exConn 6120).1.status = .connected ∧ (clientUpdate exConn 6121).1.status = .dropped := by decide
@@ -710,5 +910,23 @@ example : OnlyTicks [.cupd 7048, .csend 7048, .cupd 7049, .cupd 9000] := by simp
 example : (Client.new ⟨102, 2048, 1024⟩).InSync := by intro c h; simp [Client.new] at h
 example : FedWithin exEnv 5120 exConn 1000 [.cupd 3000, .csend 3000, .cupd 6000] 6100 := by
   simp only [FedWithin, xtime, accepts]; decide
+
+example : Typed exClient := by unfold Typed; decide
+
+-- the link hypothesis of `C12_idle_pair_stays_up` is satisfiable: a keyed pair, an AEAD with a 16-byte tag;
+-- a's keep-alive emitted at 1120 is accepted by b at 1125
+def exTagEnv : Env :=
+  ⟨⟨1500⟩, ⟨fun _ _ _ p => p ++ List.replicate 16 0, fun _ _ _ c => some (c.take (c.length - 16))⟩, baseRole⟩
+def exA : Conn := { exConn with key := some [1] }
+def exB : Conn := { isServer := true, key := some [1], status := .connected, lastRecv := 1003, lastSend := 1000, lastKeepAlive := 1000 }
+def exOpsA : List XOp := [.base (.build 1040), .csend 1080, .base (.build 1120)]
+def exDatagram : Bytes := match (xrun exTagEnv exA exOpsA).2 with | [.emit _ d] => d | _ => []
+def exHdr : Header := match decodeHdr true exDatagram with | .ok h => h | .error _ => ⟨false, 0, .unknown, 0, 0, 0, 0, 0⟩
+example : exDatagram.length = 36 := by decide
+example : acceptTimes exTagEnv exB [.supd 1110, .base (.recv 1125 exHdr exDatagram), .supd 1130] =
+    List.zipWith (· + ·) (xemitTimes exTagEnv exA exOpsA) [5] := by decide
+example : exB.lastRecv = exA.lastSend + 3 := by decide
+example : MonoUpTo 1200 1100 [.supd 1110, .base (.recv 1125 exHdr exDatagram), .supd 1130] := by
+  simp only [MonoUpTo, xtime]; decide
 
 end Mpgs.Conn
